@@ -168,6 +168,18 @@ static int body_ref_value (const char *sig, int si, const unsigned char *b, int 
           }
         return *pos == aend;
       }
+    case 'v':
+      {
+        /* "The marshaled SIGNATURE of a single complete type, followed by a marshaled value with the type given in the signature." */
+        int n; const unsigned char *vs;
+        if (*pos + 1 > len) return 0; n = b[*pos];
+        if (n + 1 > len - (*pos + 1)) return 0;
+        vs = b + *pos + 1;
+        if (!spec_signature_single (vs, n)) return 0;
+        if (vs[n] != 0) return 0;
+        *pos += n + 2;
+        return body_ref_value ((const char *) vs, 0, b, len, pos, le, depth + 1);
+      }
     case '(': case '{':
       {
         int se = body_ref_type_end (sig, si) - 1;   /* index of the closing bracket */
